@@ -1,12 +1,12 @@
-CONSTANTS K = 2
+CONSTANTS K = 1
 TYS = {"Z","X"}
-PHS = {0,1,4,7}
+PHS = {0,1,4}
 ETS = {"N","H"}
 NB = 2
 VARS = {}
 BB = TRUE
-SCN = 1
-CMS = {"zero","distinct"}
+SCN = 10
+CMS = {"zero","distinct","rows"}
 MUT = "none"
 INIT Init
 NEXT Next
